@@ -16,4 +16,6 @@ FN = ['UpdateCoins', 'ApplyTxInUndo (validation.cpp)', 'AddCoins', 'CCoinsViewCa
 HARNESSES = [
     H('txflow', 'txflow.cpp', 'h_txflow', link=LINK, entries=RT, shadow=['nofmt', 'nopool'], unwind=20, memunwind=112, timeout=900, objbits=11, functions=FN, stubs=ST,
       bounds='2 base outpoints + 2 created outpoints; shapes: ' + ', '.join(x[0] for x in RT) + '; all values symbolic'),
+    H('txflow1', 'txflow.cpp', 'h_txflow', link=LINK, entries=RT, defines={'ONE_LAYER': 1}, shadow=['nofmt', 'nopool'], unwind=20, memunwind=112, timeout=900, objbits=11, functions=FN, stubs=ST,
+      bounds='ONE cache layer over the map-model base; 2 base outpoints + 2 created outpoints; shapes: ' + ', '.join(x[0] for x in RT) + '; all values symbolic'),
 ]
